@@ -396,6 +396,32 @@ def run(R):
                             % (", ".join(mods) or [o.kind for o in other]), [c.loc()])
             else:
                 R.ok("C03.cast", "evaluate|parse-arg", "parse(<payload of the evaluated operand>, unmodified)", c.loc())
+    # ---- literals reach the engine as written
+    R.rule("C03.literal", "the converter hands every literal to the engine as it was written: an ExpressionTree::Value built in "
+                          "parser_tree_converter wraps the parse tree's own value, no function (type guessing, parsing, folding) in between")
+    n_lit = 0
+    for g0 in sorted(P.fns.values(), key=lambda g_: g_.key):
+        if g0.target != "lib" or g0.kind == "Closure" or g0.derived or not g0.spath.startswith("sqlgrep::parsing::parser_tree_converter::") \
+                or (PR.pinned_fns() and g0.spath not in PR.pinned_fns()):
+            continue
+        gv = PR.view(P, g0)
+        for i_, st in gv.stmts():
+            if not (st["k"] == "assign" and st["rv"]["k"] == "aggr" and (st["rv"].get("adt") or "").endswith("model::ExpressionTree")
+                    and st["rv"].get("variant") == "Value" and st["rv"]["ops"]):
+                continue
+            n_lit += 1
+            os_ = F.origins(gv, st["rv"]["ops"][0], depth=16, through_calls=False)
+            made = [o for o in os_ if o.kind in ("call", "aggr", "const", "cast", "binop")]
+            if made or not os_:
+                what = short(made[0].call.name) if made and made[0].kind == "call" else (made[0].kind if made else "nothing")
+                R.violation("C03.literal", "%s|computed-literal" % g0.spath.split("::")[-1],
+                            "%s builds an ExpressionTree::Value from %s instead of the literal the statement contains: the literal's type / "
+                            "value is decided before the row (and the other operand) is known, so e.g. a text column is no longer compared "
+                            "with a text literal by code point" % (g0.path, what), ["%s:%d" % (gv.file, st["line"])])
+            else:
+                R.ok("C03.literal", "%s|value" % g0.spath.split("::")[-1], "Value(v) = the parse tree's v", "%s:%d" % (gv.file, st["line"]), nontrivial=False)
+    if n_lit == 0:
+        R.note("C03.literal: no ExpressionTree::Value construction found in the converter")
     # ---- CASE takes the first true branch; array subscripts are 1-based
     R.rule("C03.case", "CASE evaluates its WHEN clauses in order and returns the THEN value of the first true one, else the ELSE value")
     R.rule("C03.subscript", "array subscripts are 1-based: the element index is the subscript minus the constant 1 (checked), looked up with get()")
